@@ -35,7 +35,7 @@ C2S_EVENT_CH = {"CE0": 1, "CEM": 2, "CT": 3}
 
 
 def gen_script(rng, nclients=None, policy=None, track=None, auth=None, length=None, periodic=False,
-               late_join=True, sessions=False, weights=None, max_size=None, events=False, rel=False):
+               late_join=True, sessions=False, weights=None, max_size=None, events=False, rel=False, burst=0.0):
     w = dict(sop=5.0, sframe=3.0, cframe=2.5, deliver=4.0, drop=0.6, session=0.25 if sessions else 0.0,
              sev=2.0 if events else 0.0, cev=1.2 if events else 0.0, edeliver=3.0 if events else 0.0)
     if weights:
@@ -179,6 +179,27 @@ def gen_script(rng, nclients=None, policy=None, track=None, auth=None, length=No
                 kind = name
                 break
             r -= x
+        if burst and running and connected and rng.random() < burst:
+            # several entities mutated inside one tick window, the tick's mutate messages delivered only partly,
+            # acknowledgements flowing back, then further ticks: exercises per-message bookkeeping
+            cands = [e for e, st in wd.alive.items() if st["marker"] and (st["comps"] & {0, 1})]
+            if len(cands) >= 2:
+                for e in rng.sample(cands, min(len(cands), rng.choice([2, 3, 4]))):
+                    k = rng.choice(sorted(wd.alive[e]["comps"] & {0, 1}))
+                    lines.append("sop mutate %d %d=%d" % (e, k, rng.randrange(100, 200)))
+                lines.append("sframe 1 16")
+                wd.pending_despawn.clear()
+                for c in sorted(connected):
+                    if rng.random() < 0.8:
+                        lines.append("deliver %d s2c 0 all" % c)
+                    for _ in range(rng.choice([1, 1, 2])):
+                        lines.append("%s %d s2c 1 %s" % (rng.choice(["deliver", "deliver", "drop"]), c, rng.choice(["first", "last"])))
+                    if rng.random() < 0.5:
+                        lines.append("drop %d s2c 1 all" % c)
+                    lines.append("cframe %d" % c)
+                    lines.append("deliver %d c2s 0 all" % c)
+                lines.append("sframe 1 16")
+                continue
         if kind == "sev" and running:
             ty = rng.choice(["SE0", "SE0", "SEI", "SEM", "SEU", "ST"])
             modes = ["b", "b", "ds"] + ["x%d" % c for c in connected] + ["d%d" % c for c in connected]
